@@ -1,7 +1,7 @@
 (* Property C11 — statements only.  Each is closed by [exact] of a lemma proved elsewhere. *)
 From Coq Require Import List ZArith Bool. Import ListNotations.
 Require Import WS PrettyTree PrettyTreeproof Gen_TextContent C11inst.
-Require Import Package Pkgproof Pkgproof4 Pkgproof5 PkgInstproof.
+Require Import Package Pkgproof Pkgproof4 Pkgproof5 PkgStepWF4 PkgInstproof.
 
 (* the repaired pretty_indent, with the TEXT_CONTENT table read from the source on this run: the ODF reading
    (section 6.1.2 consumer of C05) of every paragraph and heading of every tree is unchanged *)
@@ -50,6 +50,21 @@ Theorem C11_save_writes_memory : forall (xml bytes kid : Type) (ser : xml -> byt
   forall n, file_view xml bytes kid par mask (lookup (tgt_id t) fs') n = view xml bytes kid par mask fs d' n.
 Proof. exact save_file_is_memory. Qed.
 Print Assumptions C11_save_writes_memory.
+
+(* C03_roundtrip for pretty saves without the hypothesis on [mask], for the structure / attribute projection: the state machine
+   with XML parts = element trees and pretty = the repaired pretty_indent, any reachable state, zip or folder *)
+Theorem C11_pretty_save_roundtrip_structure : forall (bytes kid : Type) (ser : node -> bytes) (par : bytes -> node) (stamp : node -> node)
+    (entries : node -> mentries) (with_entries : mentries -> node -> node) (kids : node -> list kid) (mime : bytes -> mtype)
+    (mime_bytes : mtype -> bytes) (rdf0 : bytes),
+  (forall x, par (ser x) = x) ->
+  forall (s0 : fsys bytes kid * document node bytes) os, SInv node bytes kid s0 ->
+  let s := run node bytes kid ser par (pretty textual crefill true) stamp entries with_entries kids mime mime_bytes rdf0 FIXED s0 os in
+  forall t pk pty fs' d' c, pk <> PXml ->
+  d_save node bytes kid ser par (pretty textual crefill true) stamp entries kids mime rdf0 FIXED (fst s) (snd s) t pk pty = (fs', d', true) ->
+  c_open bytes kid fs' (tgt_id t) false = Some c ->
+  forall n, view node bytes kid par skeleton fs' (mkD c []) n = view node bytes kid par skeleton (fst s) d' n.
+Proof. exact pretty_roundtrip_skeleton. Qed.
+Print Assumptions C11_pretty_save_roundtrip_structure.
 
 (* F15, memory half, on the pinned code: a pretty save changes the document in memory *)
 Theorem C11_save_pure_pinned_refuted : exists fs d t n,
